@@ -131,7 +131,7 @@ def _run(module, cfg, workdir, workers=16, timeout=600, coverage=False, simulate
     spec_dir = spec_dir or SPEC_DIR
     os.makedirs(workdir, exist_ok=True)
     meta = os.path.join(workdir, 'meta-%s-%d' % (os.path.basename(cfg), int(time.time() * 1000) % 10 ** 9))
-    cmd = ['java', '-XX:+UseParallelGC', '-Xmx6g']
+    cmd = ['java', '-XX:+UseParallelGC', '-Xmx6g', '-Xss32m']
     if dfs:
         cmd.append('-Dtlc2.tool.queue.IStateQueue=StateDeque')
     cmd += list(jvm)
